@@ -16,7 +16,9 @@
 (*              "exited"                                                                    *)
 (*   o.execd    whether the child ever exec'ed successfully                                 *)
 (*   o.image    what the exec'ed program is/sees: [prog, argv, envp, cwd, io, uid, gid, pg] *)
-(*   o.reaped, o.cstatus (raw wait status of the child), o.waitres (what `wait` reported)   *)
+(*   o.reaped, o.cstatus (raw wait status of the child), o.waits (what the successive       *)
+(*              wait / try_wait calls on the returned Child reported: [res, status] with    *)
+(*              res = "ok" | "none" (try_wait: still running) | "err")                      *)
 (* and a canonical description `c` of what the caller configured (see Want).                *)
 (* Strings are opaque values here: tokens in the model, real strings in traces.             *)
 EXTENDS Naturals, Integers, Sequences, FiniteSets
@@ -24,7 +26,7 @@ EXTENDS Naturals, Integers, Sequences, FiniteSets
 NoCode == -1000000     \* "the error carries no errno"
 Unset  == "unset"      \* for string-valued settings (cwd)
 UnsetId == -1          \* for integer-valued settings (uid, gid, pgroup)
-NoWait == [res |-> "none", status |-> 0]
+NoWaits == << >>
 
 \* steps whose failure means "a step up to and including exec failed"
 PreExecSteps == {"openat", "pipe2", "fork", "dup3", "chdir", "setuid", "setgid", "setpgid",
@@ -108,7 +110,14 @@ NoneLeftRunning(o, atEnd) == o.child # "escaped" /\ (atEnd => o.child # "caller"
 \* wait reports the child's exit status (either reading of "exit status": the raw wait status
 \* word, or the decoded exit code of a normal exit)
 StatusReadings(raw) == {raw} \cup (IF raw % 128 = 0 THEN {raw \div 256} ELSE {})
-WaitStatus(o) == o.waitres.res = "ok" => o.waitres.status \in StatusReadings(o.cstatus)
+WaitStatus(o) == \A i \in DOMAIN o.waits :
+                    o.waits[i].res = "ok" => o.waits[i].status \in StatusReadings(o.cstatus)
+\* ... on every call: once the status has been reported, every later wait / try_wait on the same
+\* handle reports the same status again (never an error such as ECHILD, never "still running").
+\* A try_wait BEFORE that may say "none" while the child runs; nothing is demanded of it.
+WaitStatusStable(o) ==
+    \A i, j \in DOMAIN o.waits :
+        (i < j /\ o.waits[i].res = "ok") => o.waits[j].res = "ok" /\ o.waits[j].status = o.waits[i].status
 
 \* end of the observation: the caller did get its answer (a hang / crash inside spawn is data)
 ReturnsExactlyOnceInCaller(o) == Len(o.returns) = 1 /\ o.returns[1].proc = "P"
@@ -121,6 +130,7 @@ Violated(c, o, atEnd) ==
     \cup (IF ErrCarriesErrno(o) THEN {} ELSE {"ErrCarriesErrno"})
     \cup (IF NoneLeftRunning(o, atEnd) THEN {} ELSE {"NoneLeftRunning"})
     \cup (IF WaitStatus(o) THEN {} ELSE {"WaitStatus"})
+    \cup (IF WaitStatusStable(o) THEN {} ELSE {"WaitStatusStable"})
     \cup (IF atEnd /\ ~ReturnsExactlyOnceInCaller(o) THEN {"ReturnsExactlyOnceInCaller"} ELSE {})
 
 =============================================================================
